@@ -59,6 +59,22 @@ definition prints them -/
 theorem children_in_print_order :
     Gen.Children.table.all (rowInPrintOrder Gen.Defs.definitions) = true := by decide +kernel
 
+/-- the node-holding attributes of a row, as stored -/
+def nodeAttrs (row : Row) : List String :=
+  (row.attrs.filter (fun p => p.2 == .node || p.2 == .nodeList)).map (·.1)
+
+def rowReadOnce (defs : Defs) (row : Row) : Bool :=
+  match defs.lookup row.kind with
+  | some rules =>
+    let po := printOrder row rules
+    (nodeAttrs row).all (fun a => po.count a == 1) && po.all (fun a => (nodeAttrs row).contains a)
+  | none => true
+
+/-- D (corollary for the printers, C01/C02): the definition of every class reads every attribute that can hold a node or a
+node list exactly once — no definition hides a sub-node from printing or prints it twice -/
+theorem definitions_read_every_child_once :
+    Gen.Children.table.all (rowReadOnce Gen.Defs.definitions) = true := by decide +kernel
+
 /-- non-vacuity: 56 classes have a definition (the other five are abstract bases) and e.g. `If`, `For`, `Try` have several
 node-holding attributes each -/
 theorem children_in_print_order_nonvacuous :
